@@ -112,7 +112,15 @@ func (cs *ContractSet) forFunc(fn *ssa.Function) *FuncContract {
 		return nil
 	}
 	p, n := relName(fn)
-	return cs.funcs[p+"."+n]
+	if c, ok := cs.funcs[p+"."+n]; ok {
+		return c
+	}
+	// instances of generic functions share the contract of their origin
+	if o := fn.Origin(); o != nil && o != fn {
+		po, no := relName(o)
+		return cs.funcs[po+"."+no]
+	}
+	return nil
 }
 
 func (cs *ContractSet) pkgOf(fn *ssa.Function) *types.Package {
